@@ -155,7 +155,10 @@ func genC06(t *rapid.T) C06Scenario {
 			anyPersist = true
 		}
 	}
-	cfg := GenCfg{ZeroPct: 3, MetaPct: 15, VoidPct: 10, FavPct: 35}
+	cfg := GenCfg{ZeroPct: 12, MetaPct: 15, VoidPct: 10, FavPct: 35}
+	if pbt.Open("C05", fTypedZero) {
+		cfg.ZeroPct = 3 // closes are skipped while a typed zero is stored
+	}
 	if rapid.IntRange(0, 3).Draw(t, "hasfav") != 0 {
 		cfg.FavKind = Kind(rapid.IntRange(1, 10).Draw(t, "favkind"))
 	} else if rapid.Bool().Draw(t, "favslice") {
